@@ -60,6 +60,11 @@ func verifyFunction(prog *ssa.Program, cs *Contracts, fn *ssa.Function, fc *Func
 			}
 		}
 	}
+	for _, p := range fn.Params {
+		if _, isFn := p.Type().Underlying().(*types.Signature); isFn {
+			f.paramFns[p] = contractKeyOf(fn) + "#" + p.Name()
+		}
+	}
 	for _, fv := range fn.FreeVars {
 		name := quote("fv:" + fv.Name())
 		g.declConst(name, "Int")
